@@ -49,7 +49,10 @@ pub fn parse_rsca(path: &Path) -> io::Result<Vec<RuleGroup>> {
         r = RuleGroup::new();
         r.rule.push(line.to_string());
     }
-    rules.push(r);
+    // a file that ends with a blank line after a description has already closed its last group
+    if !r.is_empty() {
+        rules.push(r);
+    }
     Ok(rules)
 }
 
